@@ -65,12 +65,18 @@ CLAIMED = {
    text="On an RF=1 leader under 1..8 concurrent writers with explicit flushes, a crash image (Pebble checkpoint = durable state without memtable + copy of the WAL directory, taken while the goroutine at the crash point is held) is produced at every hit of the apply/term hooks (evenly thinned to <= 60 per scenario). Every image is opened raw (commit offset within its log; dump == fresh DB folded over its log [0..c]) and through the real restart path (replay starts at c+1, applied offsets consecutive, final dump == fold of the whole image log). Online: applied offsets consecutive on every database instance (also in the C03 schedules with followers).",
    note="The fold uses the same ProcessWrite; skipped, doubled or reordered application changes version ids and modification counts and shows in the dumps. Crash points inside Pebble's own flush are not enumerated (images whose two copies straddle a flush are discarded and counted).",
    technique="crash-point fault injection at hooks + recovery oracle (state == fold of the log)"),
+ "C05": dict(engine="coord", level="fault_enumeration",
+   text="The real coordinator ShardController and StatusResource run over a harness-owned metadata store and coordination-RPC layer against 5 real storage nodes (real ShardsDirector, WAL, Pebble). Seeded schedules inject: coordinator death at chosen points (before/after the k-th metadata write; at the send or after the execution of the k-th NewTerm/BecomeLeader/AddFollower/DeleteShard) followed by a restart from the stored metadata, per-message loss (request or response) and delay, node process crashes (database back to its flushed image) and restarts, also between a node's NewTerm answer and BecomeLeader, leader-failure notifications (true and false), node swaps, and exact re-deliveries of earlier requests. Monitors run under the harness lock in record order and decide: durable-before-send, no term reuse across incarnations, one BecomeLeader target / one OK answer / one LEADER report / one stored leader per term, leader and followers are fenced members of the stored ensemble with the answered heads and the leader's head maximal, fenced majority of the ensemble, node terms never regress (answers, status polls, flushed crash image at the answer). A second part watches the real file metadata provider with concurrent observers for torn states.",
+   note="Crash points are sampled by (kind, ordinal) per schedule, not enumerated exhaustively per election; the 15-minute give-up of the status resource's retry loop (after which an election would proceed without a durable term) is out of reach of a bounded run and is described in DESIGN.md. Safety only: elections that never complete are counted, not judged.",
+   technique="fault injection at coordinator crash points / message loss / node crashes + online trace monitors over recorded RPCs and metadata writes + race detector"),
 }
 
 NOT_APPLICABLE = {}
 DEFAULT_NA = "check not built yet in this session (work in progress)"
 
 ENGINES = [
+ {"name": "coord", "path": "harness/engines/coord", "serves_properties": ["C05"],
+  "kind_free_text": "real coordinator ShardController + StatusResource over harness-owned metadata store and coordination RPCs (lib/ctl), real storage nodes (lib/replcluster); real file metadata provider under concurrent observers"},
  {"name": "repl", "path": "harness/engines/repl", "serves_properties": ["C03", "C04", "C06", "C07", "C08"],
   "kind_free_text": "real leader/follower controllers through the real ShardsDirector, wired by harness-owned in-memory replication streams; harness plays coordinator"},
  {"name": "kvorder", "path": "harness/engines/kvorder", "serves_properties": ["C11"],
